@@ -31,7 +31,7 @@ PROPS = {
             "panic-message formatting (Variable::string/debug) stubbed in K",
         ]),
     "C04": dict(
-        probes=["fold", "logic", "twins", "twins_random"],
+        probes=["fold", "logic", "twins", "twins_random", "capture"],
         explanation="operator-level kernel of C04: each recreate-time function agrees with the run-time function on constant "
                     "operands, raises an early error only for an operation that fails whenever evaluated, and otherwise "
                     "rebuilds the instruction with the same operator and operands; branch pruning by IfElse::recreate "
@@ -53,7 +53,7 @@ PROPS = {
             "V-only: no counterexample; failures are replayed with generated probe programs",
         ]),
     "C09": dict(
-        probes=["index", "slice"],
+        probes=["index", "slice", "capture"],
         explanation="at::exec and stdlib::len proved for all lengths and all i64 indices against Seq views (V) and on real "
                     "Arc<Array>/Arc<str> values for small lengths (K, bounded); slicing: Slicing::exec proved on the verbatim "
                     "body (V) to evaluate operand, start, stop, step in that order, to put each bound (converted by to_bound) "
@@ -69,7 +69,7 @@ PROPS = {
             "std contracts in verus/slicing.rs: Iterator::cloned / collect keep the elements in order; str::chars().collect()",
         ]),
     "C12": dict(
-        probes=["control", "control_random"],
+        probes=["control", "control_random", "capture"],
         explanation="selection and signal routing of if / if-set / match / loop / function / block proved on the verbatim "
                     "bodies against the abstract machine; desugaring of while / while-set / for and the placement checks "
                     "are the checker's business and are covered by bounded probes only",
